@@ -2,7 +2,7 @@
     model/Fees.v; script classification; DER serialisation; library-signed transactions. *)
 From Coq Require Import List NArith Bool.
 From Coq Require Import Strings.Byte.
-From GoBT Require Import lib.Bytes lib.Hex lib.VarInt model.Tx gen.Consts spec.FeeSpec model.Fees corr.Corr corr.FeeCorr.
+From GoBT Require Import lib.Bytes lib.Hex lib.VarInt model.Tx gen.Consts spec.FeeSpec model.Fees model.QuoteHeap corr.Corr corr.FeeCorr.
 Import ListNotations.
 Local Open Scope N_scope.
 
@@ -16,7 +16,16 @@ Inductive case :=
         (enough est_enough : obs bool) (est_fees : obs (N * N * N))
 | CClass (s : bytes) (data p2pkh inscription : bool)
 | CDer (r s : N) (ser : bytes)
-| CSigned (t : tx) (unlocks : list bytes) (sigs : list sig_obs) (est signed_size : N).
+| CSigned (t : tx) (unlocks : list bytes) (sigs : list sig_obs) (est signed_size : N)
+(** a history over the pool of FeeQuote objects (model/QuoteHeap.v) and, per [HFees] step, what the implementation
+    answered for the quote asked: EstimateFeesPaid, IsFeePaidEnough, EstimateIsFeePaidEnough *)
+| CHist (t : tx) (ops : list hop) (observed : list (obs (N * N * N) * obs bool * obs bool)).
+
+Definition hist_obs_match (t : tx) (q : quote) (o : obs (N * N * N) * obs bool * obs bool) : bool :=
+  let '(f, e, ee) := o in
+  obs_match n3_eqb (omap fees3 (estimate_fees_paid t q)) f &&
+  obs_match Bool.eqb (is_fee_paid_enough t q) e &&
+  obs_match Bool.eqb (estimate_is_fee_paid_enough t q) ee.
 
 Definition sig_ok (unlocks : list bytes) (g : sig_obs) : bool :=
   bytes_eqb (nth (sg_idx g) unlocks []) (p2pkh_unlocking (sg_pk g) (der (sg_r g) (sg_s g)) (sg_flag g)) &&
@@ -52,6 +61,10 @@ Definition check (c : case) : bool :=
       forallb (sig_ok unlocks) sigs && sign_shape 0 (tx_ins t) unlocks sigs &&
       obs_match N.eqb (estimate_size t) (OOk est) && (tx_size signed =? sz) && (sz <=? est) &&
       wf_txb t && negb (ambiguousb t)
+  | CHist t ops observed =>
+      let vs := views empty_state ops in
+      Nat.eqb (length vs) (length observed) &&
+      forallb (fun p => hist_obs_match t (fst p) (snd p)) (combine vs observed)
   end.
 
 Definition mismatches := mismatches_with check.
